@@ -34,6 +34,7 @@ type txnObs struct {
 	rbCtxErrAtEntry            error
 	rbCtxErrAfterCancel        error
 	rbCtxHasDeadline           bool
+	rbCtxDeadlineExpired       bool // the rollback context reports a deadline that had already passed when the rollback ran
 	ret                        error
 }
 
@@ -43,6 +44,20 @@ func runTxnCase(c txnCase) (o txnObs, errCond, errThen, errRb error) {
 	defer cancel()
 	if c.Cancel == "before" {
 		cancel()
+	}
+	// the caller's context carries a DEADLINE that passes while the failing step runs: the rollback starts after it
+	deadlineCase := c.Cancel == "deadline-passes-in-failing-step"
+	if deadlineCase {
+		var dcancel context.CancelFunc
+		ctx, dcancel = context.WithTimeout(ctx, 3*time.Millisecond)
+		defer dcancel()
+	}
+	outlive := func(sctx context.Context) {
+		select {
+		case <-sctx.Done():
+		case <-time.After(time.Second):
+		}
+		time.Sleep(time.Millisecond)
 	}
 	var mu sync.Mutex
 	cond := func(cctx context.Context) error {
@@ -57,6 +72,9 @@ func runTxnCase(c txnCase) (o txnObs, errCond, errThen, errRb error) {
 			}
 		}
 		if c.Cond == "fail" {
+			if deadlineCase {
+				outlive(cctx)
+			}
 			return errCond
 		}
 		return nil
@@ -71,6 +89,9 @@ func runTxnCase(c txnCase) (o txnObs, errCond, errThen, errRb error) {
 				cancel()
 			}
 			if c.Then == "fail" {
+				if deadlineCase {
+					outlive(tctx)
+				}
 				return errThen
 			}
 			return nil
@@ -83,7 +104,9 @@ func runTxnCase(c txnCase) (o txnObs, errCond, errThen, errRb error) {
 			o.rbFlag = append(o.rbFlag, *flag)
 		}
 		o.rbCtxErrAtEntry = rctx.Err()
-		_, o.rbCtxHasDeadline = rctx.Deadline()
+		var dl time.Time
+		dl, o.rbCtxHasDeadline = rctx.Deadline()
+		o.rbCtxDeadlineExpired = o.rbCtxHasDeadline && !dl.After(time.Now())
 		mu.Unlock()
 		if c.Cancel == "during-rollback" {
 			cancel()
@@ -161,6 +184,9 @@ func judgeTxn(c txnCase, o txnObs, errCond, errThen error) (key, what string) {
 		if o.rbCtxErrAfterCancel != nil {
 			return "rollback-context-interrupted-by-caller", fmt.Sprintf("caller cancellation reached the rollback context: %v", o.rbCtxErrAfterCancel)
 		}
+		if o.rbCtxDeadlineExpired {
+			return "rollback-context-carries-the-callers-expired-deadline", "the rollback ran under a context whose Deadline() had already passed (the caller's): every deadline-aware client call inside the rollback fails at once"
+		}
 	}
 	var want error
 	if condFailed {
@@ -176,7 +202,7 @@ func judgeTxn(c txnCase, o txnObs, errCond, errThen error) (key, what string) {
 
 func txnMatrix() []txnCase {
 	var cases []txnCase
-	cancels := []string{"none", "before", "during-cond", "during-then", "during-rollback"}
+	cancels := []string{"none", "before", "during-cond", "during-then", "during-rollback", "deadline-passes-in-failing-step"}
 	for _, cd := range []string{"ok", "fail"} {
 		for _, th := range []string{"ok", "fail", "nil"} {
 			for _, rb := range []string{"ok", "fail", "nil"} {
